@@ -418,7 +418,7 @@ namespace BitSerializer::Csv::Detail
 		return !out_values.empty();
 	}
 
-	std::string_view CCsvStreamReader::UnescapeValue(char* beginIt, const char* endIt)
+	std::string_view CCsvStreamReader::UnescapeValue(const char* beginIt, const char* endIt)
 	{
 		// Validate first and end double quotes
 		if (*beginIt != '"')
@@ -431,10 +431,10 @@ namespace BitSerializer::Csv::Detail
 			throw ParsingException("Missing trailing double-quotes, line: " + Convert::ToString(mLineNumber), mLineNumber);
 		}
 
-		// Decode to the same buffer
-		char* decodedIt = beginIt;
+		// Decode to the temporary buffer (the row must stay intact, the same value can be requested more than once)
+		mTempValueBuffer.clear();
 		size_t doubleQuotesCount = 0;
-		for (char* currentPos = beginIt + 1; currentPos != endIt; ++currentPos)
+		for (const char* currentPos = beginIt + 1; currentPos != endIt; ++currentPos)
 		{
 			const char sym = *currentPos;
 			if (sym == '"')
@@ -446,10 +446,9 @@ namespace BitSerializer::Csv::Detail
 					continue;
 				}
 			}
-			*decodedIt = sym;
-			++decodedIt;
+			mTempValueBuffer.push_back(sym);
 		}
 
-		return { beginIt, static_cast<std::string_view::size_type>(decodedIt - beginIt) };
+		return { mTempValueBuffer.data(), mTempValueBuffer.size() };
 	}
 }
